@@ -77,6 +77,7 @@ class C06(vlib.Check):
     )
 
     def gen(self, rng, tier):
+        yield 'shutdown'      # use of the library during program / thread shutdown (harness probe)
         thorough = tier == 'thorough'
         # --- the static compare, sizes independent of the data
         for t, (w, units) in ELT.items():
